@@ -407,35 +407,39 @@ Definition same_result (a : option result) (b : result) : bool :=
   | _, _ => false
   end.
 
+(* An observation together with the model's run-alone result of its job. *)
+Definition aobs := (obs * option result)%type.
+Definition annotate (tt : ttable) (jobs : list job) (os : list obs) : list aobs :=
+  combine os (map (alone tt) jobs).
+
 (* Does the observation fit the model's result of the job?  Class (returned /
    error), the kind of function handed out first, and whether the result is
    the run-alone result must all agree. *)
-Definition obs_fits (tt : ttable) (o : obs) (jr : job * result) : bool :=
-  match o, snd jr with
-  | OOk k same, ROk tr kinds =>
-      kind_matches k kinds && bool_eqb same (same_result (alone tt (fst jr)) (snd jr))
-  | OPanic same, RPanic => bool_eqb same (same_result (alone tt (fst jr)) (snd jr))
+Definition obs_fits (o : aobs) (r : result) : bool :=
+  match fst o, r with
+  | OOk k same, ROk tr kinds => kind_matches k kinds && bool_eqb same (same_result (snd o) r)
+  | OPanic same, RPanic => bool_eqb same (same_result (snd o) r)
   | _, _ => false
   end.
 
 (* A thread against its list of observations: finished jobs fit one by one;
    a trailing OHang means the thread is neither finished nor able to move. *)
-Fixpoint thread_fits (tt : ttable) (os : list obs) (done : list (job * result)) (blocked finished : bool) : bool :=
+Fixpoint thread_fits (os : list aobs) (done : list (job * result)) (blocked finished : bool) : bool :=
   match os, done with
   | [], [] => finished
-  | [OHang], [] => blocked
-  | o :: os', jr :: done' => obs_fits tt o jr && thread_fits tt os' done' blocked finished
+  | [(OHang, _)], [] => blocked
+  | o :: os', jr :: done' => obs_fits o (snd jr) && thread_fits os' done' blocked finished
   | _, _ => false
   end.
 
 Definition can_move (tt : ttable) (s : state) (i : nat) : bool :=
   match step tt s i with Some _ => true | None => false end.
 
-Definition state_fits (tt : ttable) (s : state) (oss : list (list obs)) : bool :=
+Definition state_fits (tt : ttable) (s : state) (oss : list (list aobs)) : bool :=
   (length oss =? length (st_threads s))%nat &&
   forallb (fun i =>
     match nth_error (st_threads s) i, nth_error oss i with
-    | Some th, Some os => thread_fits tt os (th_done th) (negb (th_finished th) && negb (can_move tt s i)) (th_finished th)
+    | Some th, Some os => thread_fits os (th_done th) (negb (th_finished th) && negb (can_move tt s i)) (th_finished th)
     | _, _ => false
     end) (seq 0 (length oss)).
 
@@ -510,20 +514,28 @@ Definition state_eqb (a b : state) : bool :=
   list_eqb ph_eqb (st_phs a) (st_phs b) && list_eqb clo_eqb (st_heap a) (st_heap b) &&
   list_eqb thread_eqb (st_threads a) (st_threads b).
 
-(* Is the next step of the thread invisible to the others (touches only its own record)? *)
-Definition local_step (th : thread) : bool :=
+(* Is the next step of the thread one that commutes with every step of every
+   other thread (so that making it at once loses no outcome)?  Steps on the
+   thread's own record; a cell nobody else knows yet; the plain write (nobody
+   reads before a Wait has seen Done); map reads that find a generated
+   function (such a binding is never replaced by a different one); Wait once
+   the counter is zero and the read after it (counter and variable do not
+   change any more). *)
+Definition local_step (s : state) (th : thread) : bool :=
   match th_stack th with
   | fr :: _ => match f_pc fr with
-               | PGen => true
-               | PAdd => true     (* the cell is not yet known to anybody else *)
-               | PWrite => true   (* nobody reads the variable before Done has been seen by a Wait *)
+               | PGen | PAdd | PWrite => true
+               | PLoad | PLoS => match lookup (st_map s) (f_ty fr) with Some (FGen _) => true | _ => false end
                | _ => false
                end
   | [] => match th_work th with
           | WGet _ _ :: _ => true
-          | WCall (FGen _) _ :: _ => true    (* reads an immutable heap cell *)
-          | WCall (FPh _) _ :: _ => false
-          | WRead _ _ :: _ => false
+          | WCall (FGen _) _ :: _ => true
+          | WCall (FPh p) _ :: _ => match nth_error (st_phs s) p with
+                                    | Some c => (ph_cnt c =? 0) && ph_pub c
+                                    | None => false
+                                    end
+          | WRead _ _ :: _ => true
           | [] => true
           end
   end.
@@ -533,7 +545,7 @@ Fixpoint settle_thread (tt : ttable) (fuel : nat) (s : state) (i : nat) : state 
   match fuel with
   | O => s
   | S k => match nth_error (st_threads s) i with
-           | Some th => if local_step th
+           | Some th => if local_step s th
                         then match step tt s i with Some s' => settle_thread tt k s' i | None => s end
                         else s
            | None => s
@@ -545,21 +557,21 @@ Definition settle (tt : ttable) (s : state) : state :=
 Definition drop_log (s : state) : state := mkState (st_map s) (st_phs s) (st_heap s) (st_threads s) [].
 
 (* can the observations still be met: the jobs finished so far fit the first observations of their thread *)
-Fixpoint prefix_fits (tt : ttable) (os : list obs) (done : list (job * result)) : bool :=
+Fixpoint prefix_fits (os : list aobs) (done : list (job * result)) : bool :=
   match done, os with
   | [], _ => true
-  | jr :: done', o :: os' => obs_fits tt o jr && prefix_fits tt os' done'
+  | jr :: done', o :: os' => obs_fits o (snd jr) && prefix_fits os' done'
   | _ :: _, [] => false
   end.
-Definition may_fit (tt : ttable) (s : state) (oss : list (list obs)) : bool :=
+Definition may_fit (s : state) (oss : list (list aobs)) : bool :=
   forallb (fun i =>
     match nth_error (st_threads s) i, nth_error oss i with
-    | Some th, Some os => prefix_fits tt os (th_done th)
+    | Some th, Some os => prefix_fits os (th_done th)
     | _, _ => false
     end) (seq 0 (length (st_threads s))).
 
 (* (found, visited) *)
-Fixpoint explore (tt : ttable) (fuel : nat) (oss : list (list obs)) (s : state) (visited : list state)
+Fixpoint explore (tt : ttable) (fuel : nat) (oss : list (list aobs)) (s : state) (visited : list state)
   : bool * list state :=
   match fuel with
   | O => (false, visited)
@@ -567,20 +579,21 @@ Fixpoint explore (tt : ttable) (fuel : nat) (oss : list (list obs)) (s : state) 
       if existsb (state_eqb s) visited then (false, visited)
       else
         let visited := s :: visited in
-        if negb (may_fit tt s oss) then (false, visited)
+        if negb (may_fit s oss) then (false, visited)
         else if stuck tt s then (state_fits tt s oss, visited)
         else
           fold_left (fun (acc : bool * list state) i =>
                        if fst acc then acc
                        else match step tt s i with
-                            | Some s' => explore tt k oss (drop_log (settle tt s')) (snd acc)
+                            | Some s' => explore tt k oss (drop_log (settle tt (settle tt s'))) (snd acc)
                             | None => acc
                             end)
                     (seq 0 (length (st_threads s))) (false, visited)
   end.
 
 Definition reachable_outcome (tt : ttable) (threads : list (list job)) (oss : list (list obs)) : bool :=
-  fst (explore tt (Nat.pow 10 4) oss (drop_log (settle tt (init threads))) []).
+  fst (explore tt 5000 (map (fun jo => annotate tt (fst jo) (snd jo)) (combine threads oss))
+               (drop_log (settle tt (init threads))) []).
 
 (* ------------------------------------------------------------------------- *)
 (* Correspondence cases *)
@@ -595,6 +608,8 @@ Inductive cache_case :=
 Definition cache_case_ok (c : cache_case) : bool :=
   match c with
   | SeqCase tb jobs observed =>
-      state_fits tb (run_seq tb jobs) (map (fun o => [o]) observed)
-  | ConcCase tb threads observed => reachable_outcome tb threads observed
+      (length observed =? length jobs)%nat &&
+      state_fits tb (run_seq tb jobs) (map (fun o => [o]) (annotate tb jobs observed))
+  | ConcCase tb threads observed =>
+      (length observed =? length threads)%nat && reachable_outcome tb threads observed
   end.
